@@ -114,6 +114,7 @@ func runC12(c *an.Ctx) {
 	checkLookupAfterSubscription(c, "C12.a", gbh, lookup, wait)
 	checkElapsedOnlyWhenPublished(c, "C12.b", wait)
 	checkSharedSignalReleasedLast(c, "C12.b")
+	checkReleasesOwnSubscriptionOnly(c, "C12.b", wait)
 	checkShortcutHeightMatches(c, "C12.a", lookup)
 	checkWaitNotUnderReadTransaction(c, "C12.a")
 	if np := p.Method("store", "heightSub", "Notify"); c.Need(np, "C12.c", "store.(*heightSub).Notify") {
